@@ -8,5 +8,8 @@ import ThriftVerif.Facts.ExpectWire
 #print axioms ThriftVerif.Properties.C02.format_struct
 #print axioms ThriftVerif.Properties.C02.stream_decode_encode
 #print axioms ThriftVerif.Properties.C02.lazy_decode_encode
+#print axioms ThriftVerif.Properties.C02.encoding_prefix_free
+#print axioms ThriftVerif.Properties.C02.encoding_injective
+#print axioms ThriftVerif.Properties.C02.encoding_no_proper_prefix
 #print axioms ThriftVerif.Facts.ExpectWire.typeCodes_ok
 #print axioms ThriftVerif.Facts.ExpectWire.fixedWidth_ok
